@@ -375,6 +375,33 @@ pub fn run(ctx: &Ctx) {
             }
         }
     }
+    // a later section gives the number of the first section's cross-reference stream to an ordinary stream
+    {
+        use crate::engine::val::Val;
+        use crate::engine::writer::{FilterSpec, Writer};
+        for (later_is_stream_xref, chain) in [(false, vec![FilterSpec::Flate { raw: false, level: 6 }]), (true, vec![]), (false, vec![FilterSpec::AsciiHex])] {
+            let mut w = Writer::new(b"", "1.6");
+            for (n, v) in crate::engine::writer::minimal_catalog(1, 2, 3, 1) {
+                w.obj(n, 0, &v);
+            }
+            w.stream_obj(4, 0, &[], b"first revision stream");
+            w.xref_stream(6, 7, &[(Bytes::from("Root"), Val::Ref(1, 0))], false, &[FilterSpec::Flate { raw: false, level: 6 }], false);
+            let mut t = crate::engine::tape::Tape::new(&[]);
+            let (enc, entries) = crate::engine::writer::encode_chain(b"HELLO, I am an ordinary stream now", &chain, &mut t);
+            w.stream_obj(6, 0, &entries, &enc);
+            if later_is_stream_xref {
+                w.xref_stream(7, 8, &[(Bytes::from("Root"), Val::Ref(1, 0))], false, &[], false);
+            } else {
+                w.xref_table(7, &[(Bytes::from("Root"), Val::Ref(1, 0))], false);
+            }
+            let file = w.finish();
+            ctx.run_one("probe-redefined-xref-stream-number", "generated", |info| {
+                info.nontrivial(true);
+                check_rendered(&Rendered { name: "redefined-xref-stream-number".into(), file: Bytes(file.clone()), password: Bytes(vec![]), calls: vec![Call::StreamData(6), Call::Resolve(6), Call::StreamData(4)] })?;
+                check_rendered(&Rendered { name: "redefined-xref-stream-number".into(), file: Bytes(file.clone()), password: Bytes(vec![]), calls: vec![Call::Resolve(6), Call::StreamData(6)] })
+            });
+        }
+    }
     for f in corpus::load(&ctx.verif_dir, false) {
         if ctx.tier == Tier::Quick && f.data.len() > 200_000 {
             continue;
